@@ -21,8 +21,26 @@ def gen(ctx, part, ND=2, Sample=0, MaxIO=2):
     return res.values
 
 
-def spell(p):
-    return ("/" if p["abs"] else "") + "/".join(p["comps"])
+def spell(p, root=""):
+    """Concrete spelling of an abstract path; absolute ones live under the real directory `root`."""
+    return (root + "/" if p["abs"] else "") + "/".join(p["comps"])
+
+
+_ROOT = None
+
+
+def real_root():
+    """A real directory standing for the abstract "/": it contains P and P/s; graph construction
+    runs with P as the current directory, so relative working directories mean something."""
+    global _ROOT
+    if _ROOT is None or _ROOT[0] != os.getpid():
+        d = os.path.realpath(tempfile.mkdtemp(prefix="gwfverif-root-"))
+        os.makedirs(os.path.join(d, "P", "s"))
+        import atexit
+
+        atexit.register(shutil.rmtree, d, True)
+        _ROOT = (os.getpid(), d)
+    return _ROOT[1]
 
 
 def kind_of(exc):
@@ -57,13 +75,16 @@ def drive_graph(item):
     obs = {"built": False, "kind": "", "deps": {}, "dependents": {}, "endpoints": [], "provides": {}, "unresolved": [],
            "has_info": False, "info_deps": {}, "info_dependents": {}}
     targets = []
+    root = real_root()
     for d in decls:
-        ins = [spell(p) for p in d["ins"]]
-        outs = [spell(p) for p in d["outs"]]
+        ins = [spell(p, root) for p in d["ins"]]
+        outs = [spell(p, root) for p in d["outs"]]
         rng.shuffle(ins)
         rng.shuffle(outs)
         targets.append(Target(name=perm[d["name"]], inputs=defs.shape(ins, rng.choice(defs.SHAPES)), outputs=defs.shape(outs, rng.choice(defs.SHAPES)),
-                              options={}, working_dir="/" + "/".join(d["wd"])))
+                              options={}, working_dir=spell(d["wd"], root)))
+    old_cwd = os.getcwd()
+    os.chdir(os.path.join(root, "P"))
     try:
         g = Graph.from_targets({t.name: t for t in targets}, AllExist())
         obs["built"] = True
@@ -73,43 +94,41 @@ def drive_graph(item):
             # .get: reading the graph must not add keys to its defaultdicts
             obs["deps"][a] = sorted(inv[x.name] for x in g.dependencies.get(t, ()))
             obs["dependents"][a] = sorted(inv[x.name] for x in g.dependents.get(t, ()))
-        obs["provides"] = {p: inv[t.name] for p, t in g.provides.items()}
-        obs["unresolved"] = sorted(g.unresolved)
+        strip = lambda p: p[len(root):] if p.startswith(root + "/") else "?" + p  # noqa: E731
+        obs["provides"] = {strip(p): inv[t.name] for p, t in g.provides.items()}
+        obs["unresolved"] = sorted(strip(p) for p in g.unresolved)
     except Exception as exc:  # noqa: BLE001
         obs["kind"] = kind_of(exc)
+    finally:
+        os.chdir(old_cwd)
     if obs["built"] and variant % 9 == 0:
-        # the same relations through `gwf info` on a real project (paths mapped under the sandbox)
+        # the same relations through `gwf info` on a real project: the sandbox project directory stands
+        # for "/", gwf is invoked from <proj>/P (so that relative working directories resolve as in the
+        # specification) and finds <proj>/workflow.py by searching upwards
         sb = cli_defs.sandbox()
         sb.reset()
         root = sb.proj
-        lines = ["from gwf import Workflow", "gwf = Workflow(working_dir=%r)" % root]
+        os.makedirs(os.path.join(root, "P", "s"))
+        lines = ["from gwf import Workflow, AnonymousTarget", "gwf = Workflow(working_dir=%r)" % root]
         for d in decls:
-            wd = os.path.join(root, *d["wd"])
-            os.makedirs(wd, exist_ok=True)
-            ins = [(root + spell(p)) if p["abs"] else spell(p) for p in d["ins"]]
-            outs = [(root + spell(p)) if p["abs"] else spell(p) for p in d["outs"]]
-            lines.append("from gwf import AnonymousTarget")
-            lines.append("gwf.target_from_template(%r, AnonymousTarget(inputs=%r, outputs=%r, options={}, working_dir=%r))" % (perm[d["name"]], ins, outs, wd))
+            ins = [spell(p, root) for p in d["ins"]]
+            outs = [spell(p, root) for p in d["outs"]]
+            lines.append("gwf.target_from_template(%r, AnonymousTarget(inputs=%r, outputs=%r, options={}, working_dir=%r))" % (perm[d["name"]], ins, outs, spell(d["wd"], root)))
+            wd_real = os.path.normpath(os.path.join(root, "P", spell(d["wd"], root)))
             for p in d["ins"]:
-                f = os.path.normpath(os.path.join(root + spell(p) if p["abs"] else os.path.join(wd, spell(p))))
-                if f.startswith(root):
+                f = os.path.normpath(spell(p, root) if p["abs"] else os.path.join(wd_real, spell(p)))
+                if f.startswith(root + "/") and not os.path.isdir(f):
                     os.makedirs(os.path.dirname(f), exist_ok=True)
                     open(f, "a").close()
         sb.write("workflow.py", "\n".join(lines) + "\n")
         sb.write(".gwfconf.json", json.dumps({"backend": "slurm"}))
-        r = sb.gwf(["info"])
-        if r.exit_code == 0:
-            try:
-                info = json.loads(r.stdout)
-                obs["info_deps"] = {inv[n]: sorted(inv[x] for x in v["dependencies"]) for n, v in info.items()}
-                obs["info_dependents"] = {inv[n]: sorted(inv[x] for x in v["dependents"]) for n, v in info.items()}
-                obs["has_info"] = True
-            except (ValueError, KeyError):
-                obs["has_info"] = True
-                obs["info_deps"] = {d["name"]: ["?"] for d in decls}
-                obs["info_dependents"] = {d["name"]: ["?"] for d in decls}
-        else:
-            obs["has_info"] = True
+        r = sb.gwf(["info"], cwd=os.path.join(root, "P"))
+        obs["has_info"] = True
+        try:
+            info = json.loads(r.stdout) if r.exit_code == 0 else None
+            obs["info_deps"] = {inv[n]: sorted(inv[x] for x in v["dependencies"]) for n, v in info.items()}
+            obs["info_dependents"] = {inv[n]: sorted(inv[x] for x in v["dependents"]) for n, v in info.items()}
+        except Exception:  # noqa: BLE001
             obs["info_deps"] = {d["name"]: ["?exit %s" % r.exit_code] for d in decls}
             obs["info_dependents"] = {d["name"]: [] for d in decls}
     return {"id": rid, "scn": dict(scn, variant=variant), "obs": obs}
